@@ -87,6 +87,15 @@ pub fn invalid_reason(c: &Case) -> Option<&'static str> {
     if c.i != [0, 0] && (v < 6 || e < Epoch::Nu6_3) {
         return Some("Ironwood not available");
     }
+    // a bundle the padding requires (bundle_required, builder configured) needs a version that
+    // can carry it just like a used pool does
+    let (_, _, orc, iron) = super::world::predicted_shape_opt(c, false);
+    if orc > 0 && v < 5 {
+        return Some("the padding requires an Orchard bundle the version cannot carry");
+    }
+    if iron > 0 && v < 6 {
+        return Some("the padding requires an Ironwood bundle the version cannot carry");
+    }
     None
 }
 
@@ -97,7 +106,7 @@ pub fn documented_refusal(c: &Case) -> Option<&'static str> {
         // transfers, ordinary outputs cannot be constructed"
         return Some("plain Orchard output while cross-address transfers are disabled");
     }
-    let sapling_configured = c.anchors == 1 || c.s != [0, 0];
+    let sapling_configured = super::world::pools_anchored(c)[0];
     if c.route == 1 && sapling_configured && c.h < ZIP212_GRACE_END {
         // sapling::builder::Error::PcztRequiresZip212
         return Some("Sapling PCZT before ZIP 212 is enforced");
@@ -115,13 +124,15 @@ fn cs_len(n: usize) -> usize {
 }
 
 /// Fee the case's fee rule prescribes for the shape that was actually built.
-pub fn required_fee(c: &Case, o: &Obs) -> u64 {
+pub fn required_fee(c: &Case, r: &Request, o: &Obs) -> u64 {
     if c.fee != 0 {
         return FIXED_FEE;
     }
     let (tin, tout) = o.t.as_ref().map_or((0, 0), |t| {
         (
-            t.vin.iter().map(|(_, _, sig)| sig.as_ref().map_or(P2PKH_INPUT_MAX, |s| 36 + cs_len(s.len()) + s.len() + 4)).sum(),
+            // the fee is fixed before signing: every input counts with its documented
+            // pre-signing size (signatures at their maximum length)
+            t.vin.iter().map(|(h, n, _)| r.t_in.iter().find(|c| &c.txid == h && c.n == *n).map_or(P2PKH_INPUT_MAX, |c| c.input_size_bound())).sum(),
             t.vout.iter().map(|(s, _)| 8 + cs_len(s.len()) + s.len()).sum(),
         )
     });
@@ -250,6 +261,13 @@ pub fn check_obs(c: &Case, r: &Request, o: &Obs) -> Result<(), String> {
     let orc_key = |q: &ShOut| q.party * 2 + usize::from(q.change);
     check_pool("Orchard", o.o.as_ref(), &op(&r.o_in.0), &r.o_out, &orc_key)?;
     check_pool("Ironwood", o.i.as_ref(), &op(&r.i_in.0), &r.i_out, &orc_key)?;
+    // --- a bundle the padding policy requires (bundle_required) is present
+    let (_, _, want_orc, want_iron) = super::world::predicted_shape(c);
+    for (name, want, got) in [("Orchard", want_orc, &o.o), ("Ironwood", want_iron, &o.i)] {
+        if want > 0 && got.is_none() {
+            return Err(format!("{name}: the padding policy and request call for a bundle of {want} actions but the result has no {name} bundle"));
+        }
+    }
     // --- fee
     let t_in_sum: i128 = t.vin.iter().map(|(h, n, _)| r.t_in.iter().find(|c| &c.txid == h && c.n == *n).map_or(0, |c| c.value as i128)).sum();
     let t_out_sum: i128 = t.vout.iter().map(|(_, v)| *v as i128).sum();
@@ -257,7 +275,7 @@ pub fn check_obs(c: &Case, r: &Request, o: &Obs) -> Result<(), String> {
         + o.s.as_ref().map_or(0, |p| p.value_balance as i128)
         + o.o.as_ref().map_or(0, |p| p.value_balance as i128)
         + o.i.as_ref().map_or(0, |p| p.value_balance as i128);
-    let required = required_fee(c, o) as i128;
+    let required = required_fee(c, r, o) as i128;
     if net != required {
         return Err(format!(
             "net value balance (fee paid) is {net} but the fee rule requires {required} for the built shape (t {}/{}, Sapling {}/{}, Orchard actions {}, Ironwood actions {})",
@@ -306,23 +324,53 @@ impl Authorization for SigAuth {
     type OrchardAuth = orchard::bundle::Authorized;
 }
 
-/// scriptSig of a P2PKH spend: push(signature || hash type) push(33-byte public key).
-pub fn parse_p2pkh_script_sig(s: &[u8]) -> Result<(&[u8], u8, &[u8]), String> {
-    let l1 = *s.first().ok_or("empty scriptSig")? as usize;
-    if !(2..=75).contains(&l1) || s.len() < 1 + l1 + 1 {
-        return Err(format!("scriptSig does not start with a direct push of a signature (first byte {l1})"));
+/// The data pushes of a scriptSig (direct pushes, OP_PUSHDATA1/2, OP_0 as the empty push).
+pub fn script_pushes(s: &[u8]) -> Result<Vec<&[u8]>, String> {
+    let mut v = Vec::new();
+    let mut p = 0;
+    while p < s.len() {
+        let op = s[p] as usize;
+        p += 1;
+        let n = match op {
+            0 => 0,
+            1..=75 => op,
+            0x4c => {
+                let n = *s.get(p).ok_or("truncated OP_PUSHDATA1")? as usize;
+                p += 1;
+                n
+            }
+            0x4d => {
+                if p + 2 > s.len() {
+                    return Err("truncated OP_PUSHDATA2".into());
+                }
+                let n = s[p] as usize | (s[p + 1] as usize) << 8;
+                p += 2;
+                n
+            }
+            other => return Err(format!("scriptSig contains opcode {other:#x}, not a data push")),
+        };
+        if p + n > s.len() {
+            return Err("scriptSig push runs past the end".into());
+        }
+        v.push(&s[p..p + n]);
+        p += n;
     }
-    let sig = &s[1..1 + l1];
-    let l2 = s[1 + l1] as usize;
-    if l2 != 33 || s.len() != 1 + l1 + 1 + 33 {
-        return Err(format!("scriptSig does not end with a push of a 33-byte public key (length byte {l2}, total {})", s.len()));
-    }
-    Ok((&sig[..l1 - 1], sig[l1 - 1], &s[1 + l1 + 1..]))
+    Ok(v)
 }
 
-/// Every transparent input's scriptSig carries a SIGHASH_ALL signature valid under the
-/// signature hash of that input computed with the *requested* coin's script and value, by a key
-/// that hashes to the coin's P2PKH script.
+/// Split `signature || hash type` and require SIGHASH_ALL and DER.
+fn split_sig(idx: usize, push: &[u8]) -> Result<secp256k1::ecdsa::Signature, String> {
+    let (hash_type, der) = push.split_last().ok_or(format!("input {idx}: empty signature push"))?;
+    if *hash_type != 0x01 {
+        return Err(format!("input {idx}: signature hash type {hash_type:#x}, expected SIGHASH_ALL"));
+    }
+    secp256k1::ecdsa::Signature::from_der(der).map_err(|e| format!("input {idx}: signature is not DER: {e}"))
+}
+
+/// Every transparent input's scriptSig carries the signatures its coin's script demands, each a
+/// SIGHASH_ALL signature valid under the signature hash of that input computed with the
+/// *requested* coin's script and value (script code = the P2PKH script, or the redeem script of
+/// a P2SH coin), by the key(s) the coin's script names.
 pub fn check_signatures(tx: &Transaction, r: &Request) -> Result<(), String> {
     let Some(tb) = tx.transparent_bundle() else {
         return Ok(());
@@ -331,18 +379,21 @@ pub fn check_signatures(tx: &Transaction, r: &Request) -> Result<(), String> {
         return Ok(());
     }
     let w = world();
+    let mk_script = |bytes: &[u8]| Script(zcash_script::script::Code(bytes.to_vec()));
     let mut coins = Vec::new();
     for i in &tb.vin {
         let c = r.t_in.iter().find(|c| &c.txid == i.prevout().hash() && c.n == i.prevout().n()).ok_or("input spends a coin that was not requested")?;
-        let h: [u8; 20] = c.script[3..23].try_into().unwrap();
-        let script: Script = TransparentAddress::PublicKeyHash(h).script().into();
-        assert_eq!(script.0 .0, c.script, "harness: P2PKH script bytes");
-        coins.push((c, script));
+        let script_pubkey = mk_script(&c.script);
+        // cross-check the hand-written script bytes against the address type's script
+        let via_addr: Script = if c.kind == 0 { TransparentAddress::PublicKeyHash(c.script[3..23].try_into().unwrap()) } else { TransparentAddress::ScriptHash(c.script[2..22].try_into().unwrap()) }.script().into();
+        assert_eq!(via_addr.0 .0, c.script, "harness: coin script bytes");
+        let script_code = if c.kind == 0 { mk_script(&c.script) } else { mk_script(&c.redeem) };
+        coins.push((c, script_pubkey, script_code));
     }
     let bundle = TBundle {
         vin: tb.vin.iter().map(|i| TxIn::from_parts(i.prevout().clone(), i.script_sig().clone(), i.sequence())).collect(),
         vout: tb.vout.clone(),
-        authorization: CoinsAuth { amounts: coins.iter().map(|(c, _)| Zatoshis::from_u64(c.value).unwrap()).collect(), scripts: coins.iter().map(|(_, s)| s.clone()).collect() },
+        authorization: CoinsAuth { amounts: coins.iter().map(|(c, _, _)| Zatoshis::from_u64(c.value).unwrap()).collect(), scripts: coins.iter().map(|(_, s, _)| s.clone()).collect() },
     };
     let data: TransactionData<SigAuth> = match tx.version() {
         TxVersion::V6 => TransactionData::from_parts_v6(tx.consensus_branch_id(), tx.lock_time(), tx.expiry_height(), Some(bundle), tx.sapling_bundle().cloned(), tx.orchard_bundle().cloned(), tx.ironwood_bundle().cloned()),
@@ -350,34 +401,70 @@ pub fn check_signatures(tx: &Transaction, r: &Request) -> Result<(), String> {
     };
     let parts = tx.digest(TxIdDigester);
     let b = data.transparent_bundle().unwrap();
+    let sighash_of = |j: usize| -> Result<secp256k1::Message, String> {
+        let (c, spk, code) = &coins[j];
+        let si = TSignableInput::from_parts(b, SighashType::ALL, j, code, spk, Zatoshis::from_u64(c.value).unwrap()).map_err(|e| format!("{e}"))?;
+        Ok(secp256k1::Message::from_digest(*signature_hash(&data, &SignableInput::Transparent(si), &parts).as_ref()))
+    };
     for (idx, i) in tb.vin.iter().enumerate() {
-        let (c, script) = &coins[idx];
-        let (der, hash_type, pk) = parse_p2pkh_script_sig(&i.script_sig().0 .0).map_err(|e| format!("input {idx}: {e}"))?;
-        if hash_type != 0x01 {
-            return Err(format!("input {idx}: signature hash type {hash_type:#x}, expected SIGHASH_ALL"));
-        }
-        if p2pkh_script(&super::world::hash160(pk)) != c.script {
-            return Err(format!("input {idx}: public key in scriptSig does not hash to the P2PKH script of the coin it spends"));
-        }
-        let si = TSignableInput::from_parts(b, SighashType::ALL, idx, script, script, Zatoshis::from_u64(c.value).unwrap()).map_err(|e| format!("{e}"))?;
-        let sighash = signature_hash(&data, &SignableInput::Transparent(si), &parts);
-        let msg = secp256k1::Message::from_digest(*sighash.as_ref());
-        let sig = secp256k1::ecdsa::Signature::from_der(der).map_err(|e| format!("input {idx}: signature is not DER: {e}"))?;
-        let key = secp256k1::PublicKey::from_slice(pk).map_err(|e| format!("input {idx}: bad public key: {e}"))?;
-        if w.secp.verify_ecdsa(&msg, &sig, &key).is_err() {
-            // say whether it would verify for another input (mis-indexed signature)
-            let mut other = None;
-            for (j, (cj, sj)) in coins.iter().enumerate() {
-                if j == idx {
-                    continue;
+        let (c, _, _) = &coins[idx];
+        let sig_bytes = &i.script_sig().0 .0;
+        let pushes = script_pushes(sig_bytes).map_err(|e| format!("input {idx}: {e}"))?;
+        let msg = sighash_of(idx)?;
+        if c.kind == 0 {
+            // push(signature || hash type) push(33-byte public key)
+            if pushes.len() != 2 || pushes[1].len() != 33 {
+                return Err(format!("input {idx}: P2PKH scriptSig is not <signature> <33-byte public key> ({} pushes)", pushes.len()));
+            }
+            let sig = split_sig(idx, pushes[0])?;
+            let pk = pushes[1];
+            if p2pkh_script(&super::world::hash160(pk)) != c.script {
+                return Err(format!("input {idx}: public key in scriptSig does not hash to the P2PKH script of the coin it spends"));
+            }
+            let key = secp256k1::PublicKey::from_slice(pk).map_err(|e| format!("input {idx}: bad public key: {e}"))?;
+            if w.secp.verify_ecdsa(&msg, &sig, &key).is_err() {
+                // say whether it would verify for another input (mis-indexed signature)
+                let mut other = None;
+                for j in (0..coins.len()).filter(|j| *j != idx) {
+                    if w.secp.verify_ecdsa(&sighash_of(j)?, &sig, &key).is_ok() {
+                        other = Some(j);
+                    }
                 }
-                let sij = TSignableInput::from_parts(b, SighashType::ALL, j, sj, sj, Zatoshis::from_u64(cj.value).unwrap()).map_err(|e| format!("{e}"))?;
-                let hj = signature_hash(&data, &SignableInput::Transparent(sij), &parts);
-                if w.secp.verify_ecdsa(&secp256k1::Message::from_digest(*hj.as_ref()), &sig, &key).is_ok() {
-                    other = Some(j);
+                return Err(format!("input {idx}: signature does not verify under the signature hash of this input with the spent coin's script and value{}", other.map_or(String::new(), |j| format!(" (it verifies for input {j})"))));
+            }
+        } else {
+            // OP_0 <signature>.. <redeem script>
+            if pushes.len() < 2 || !pushes[0].is_empty() || sig_bytes[0] != 0x00 {
+                return Err(format!("input {idx}: P2SH multisig scriptSig does not start with OP_0 and end with the redeem script"));
+            }
+            let redeem = *pushes.last().unwrap();
+            if redeem != &c.redeem[..] {
+                return Err(format!("input {idx}: scriptSig carries redeem script {}, the requested coin's is {}", hex::encode(redeem), hex::encode(&c.redeem)));
+            }
+            if super::world::p2sh_script(&super::world::hash160(redeem)) != c.script {
+                return Err(format!("input {idx}: redeem script does not hash to the P2SH script of the coin it spends"));
+            }
+            let sigs = &pushes[1..pushes.len() - 1];
+            if sigs.len() != c.required {
+                return Err(format!("input {idx}: scriptSig carries {} signatures, the redeem script demands {}", sigs.len(), c.required));
+            }
+            // OP_CHECKMULTISIG: the signatures must match keys of the script in script order
+            let mut next_key = 0;
+            for (k, push) in sigs.iter().enumerate() {
+                let sig = split_sig(idx, push)?;
+                let mut matched = false;
+                while next_key < c.keys.len() {
+                    let key = &w.t_pk[c.keys[next_key]];
+                    next_key += 1;
+                    if w.secp.verify_ecdsa(&msg, &sig, key).is_ok() {
+                        matched = true;
+                        break;
+                    }
+                }
+                if !matched {
+                    return Err(format!("input {idx}: multisig signature #{k} does not verify (in script order) for any remaining key of the redeem script under the signature hash computed with the redeem script as script code and the coin's P2SH script and value"));
                 }
             }
-            return Err(format!("input {idx}: signature does not verify under the signature hash of this input with the spent coin's script and value{}", other.map_or(String::new(), |j| format!(" (it verifies for input {j})"))));
         }
     }
     Ok(())
